@@ -543,3 +543,54 @@ def rule_noise_factor(ctx: Ctx) -> None:
                      "a DepolarizingNoise branch does not weight its Pauli list with the shared `factors` array (identity first): the "
                      "backends would disagree on the no-error weight", func="DepolarizingNoise.apply",
                      construct=f"DepolarizingNoise: branch {short(b.test, 40) if b.test is not None else 'else'}")
+
+
+
+# --------------------------------------------------------------------------- stale read inside a temporary swap
+
+
+def rule_stale_swap_read(ctx: Ctx) -> None:
+    """effect.stale-swap-read: inside a save / overwrite / restore region (`saved = x.a; x.a = tmp; ...; x.a = saved`) the
+    function itself must not read `x.a` again after the first overwrite — it would see the temporary value, not the
+    original it saved (callees that are *meant* to see the temporary are not affected)."""
+    repo = ctx.repo
+    m = repo.module(CBASE)
+    fn = repo.anchor(CBASE, "CompilerBase.compile")
+    ctx.touch(m, fn)
+    regions = 0
+    for blk_owner in ast.walk(fn):
+        for attr in ("body", "orelse"):
+            body = getattr(blk_owner, attr, None)
+            if not (isinstance(body, list) and body and isinstance(body[0], ast.stmt)):
+                continue
+            saves = [(i, st) for i, st in enumerate(body) if isinstance(st, ast.Assign) and isinstance(st.targets[0], ast.Name)
+                     and isinstance(st.value, ast.Attribute) and isinstance(st.value.value, ast.Name)]
+            for i, sv in saves:
+                field = norm(sv.value)
+                saved = sv.targets[0].id
+                writes = [j for j, st in enumerate(body) if j > i and isinstance(st, ast.Assign) and any(norm(t) == field for t in st.targets)]
+                restores = [j for j in writes if norm(body[j].value) == saved]
+                if not writes or not restores:
+                    continue
+                regions += 1
+                first, last = writes[0], restores[-1]
+                bad = []
+                for j in range(first + 1, last):
+                    st = body[j]
+                    for n in ast.walk(st):
+                        if isinstance(n, ast.Attribute) and isinstance(n.ctx, ast.Load) and norm(n) == field:
+                            # a read of the swapped field by this function itself (arguments passed by object are not reads)
+                            p_ = parent(n)
+                            if isinstance(p_, ast.Subscript) or isinstance(p_, (ast.Assign, ast.List, ast.Tuple, ast.Compare)):
+                                bad.append((st, n))
+                if bad:
+                    st, n = bad[0]
+                    ctx.fail("effect.stale-swap-read", m, st,
+                             f"`{short(st)}` reads `{field}` after it was temporarily overwritten (saved as `{saved}` in this block): it sees the "
+                             f"temporary value, so the second half of the swap is built from the wrong noise (the entry that should be applied "
+                             f"{'after' if 'after' in norm(blk_owner.test if isinstance(blk_owner, ast.If) else ast.Constant(0)) else 'on the other side of'} the gate is lost)",
+                             func="CompilerBase.compile", construct=f"compile: {short(st, 70)} inside swap of {field}")
+                else:
+                    ctx.ok("effect.stale-swap-read", m, body[first], what=f"swap of {field}: later halves built from the saved copy")
+    if regions == 0:
+        raise AnalysisError("effect.stale-swap-read: no save/overwrite/restore region found in CompilerBase.compile")
